@@ -76,7 +76,7 @@ private:
 
     std::normal_distribution<double> distribution_;
 
-    bool valid_likelihood_;
+    bool valid_likelihood_ = false;
 
     Eigen::VectorXd likelihood_;
 };
